@@ -65,7 +65,9 @@ func HarnessC43JSON() {
 		switch k {
 		case 0:
 			t.v = verifrt.NondetI32("v")
-			text = append(text, strconv.Itoa(int(t.v))...)
+			if !verifrt.Symbolic() { // the model reads the token list; decimal text only natively
+				text = append(text, strconv.Itoa(int(t.v))...)
+			}
 		case 1:
 			text = append(text, "null"...)
 		case 2:
@@ -73,9 +75,6 @@ func HarnessC43JSON() {
 		}
 		text = append(text, ' ')
 		zzvToks = append(zzvToks, t)
-	}
-	if verifrt.Symbolic() {
-		text = nil // the model reads the token list
 	}
 	rc := &zzvReadCloser{Reader: bytes.NewReader(text)}
 	it := FromReaderJSON[int32](rc)
